@@ -406,13 +406,17 @@ func resolveCase(features supportedFeatures, unresolvedCase *conformancev1.Confi
 		tlsCases = []bool{unresolvedCase.GetUseTls()}
 	}
 	if unresolvedCase.UseTlsClientCerts != nil {
-		if unresolvedCase.UseTls != nil && !unresolvedCase.GetUseTls() {
-			// use_tls explicitly set to false for this case?
-			return nil, errors.New("config case indicates use of TLS client certs but also indicates NOT using TLS")
-		}
-		if !contains(tlsCases, true) && !features.SupportsTLS {
-			// TLS not supported?
-			return nil, errors.New("config case indicates use of TLS client certs but TLS is not supported")
+		// Only a case that asks for client certs needs TLS; an explicit
+		// "use_tls_client_certs: false" is compatible with not using TLS.
+		if unresolvedCase.GetUseTlsClientCerts() {
+			if unresolvedCase.UseTls != nil && !unresolvedCase.GetUseTls() {
+				// use_tls explicitly set to false for this case?
+				return nil, errors.New("config case indicates use of TLS client certs but also indicates NOT using TLS")
+			}
+			if !contains(tlsCases, true) && !features.SupportsTLS {
+				// TLS not supported?
+				return nil, errors.New("config case indicates use of TLS client certs but TLS is not supported")
+			}
 		}
 		tlsClientCertCases = []bool{unresolvedCase.GetUseTlsClientCerts()}
 	}
